@@ -239,7 +239,10 @@ func specialReplay(in io.Reader, raw bool, args []string) (*Summary, error) {
 					}
 					note("gammainc-grid", math.Max(math.Abs(p-wp), math.Abs(q-wq)))
 				}
-				for _, bad := range [][2]float64{{0, 1}, {-1, 1}, {a, -1e-9}, {math.NaN(), 1}, {a, math.NaN()}} {
+				nz := math.Copysign(0, -1)
+				for _, bad := range [][2]float64{{0, 1}, {-1, 1}, {a, -1e-9}, {math.NaN(), 1}, {a, math.NaN()},
+					// an invalid shape stays invalid at x = 0 (where a valid one gives exactly 0 and 1)
+					{0, 0}, {-1, 0}, {nz, nz}, {-2.5, nz}, {math.Inf(-1), 0}, {math.NaN(), 0}, {0, math.Inf(1)}, {-1, math.Inf(1)}} {
 					if v, w := mathx.GammaInc(bad[0], bad[1]), mathx.GammaIncComp(bad[0], bad[1]); !math.IsNaN(v) || !math.IsNaN(w) {
 						sum.viol("GammaInc-domain", c, "GammaInc(%v,%v)=%v, Comp=%v want NaN", bad[0], bad[1], v, w)
 					}
